@@ -29,6 +29,10 @@ type Plan struct {
 	AnswerAt int    `json:"answer_at"`         // answer the j-th transmission (1 = the first); 0 = never
 	Failure  bool   `json:"failure,omitempty"` // answer with a failing Result-Code
 	Timing   string `json:"timing,omitempty"`  // in-write | after-write | delay
+	// Copies > 1: the peer answers that transmission several times in a burst (e.g. it had
+	// stalled and now answers every transmission it received); surplus answers must not be
+	// taken for answers to later requests.
+	Copies int `json:"copies,omitempty"`
 }
 
 type Case struct {
@@ -132,6 +136,9 @@ func runOnce(c Case) result {
 			mu.Unlock()
 			if p.AnswerAt == j {
 				ans := dwaFor(h, p.Failure)
+				for k := 1; k < p.Copies; k++ {
+					ans = append(ans, dwaFor(h, p.Failure)...)
+				}
 				switch p.Timing {
 				case "after-write":
 					pending.Add(1)
@@ -367,6 +374,9 @@ func genCase(t *rapid.T) Case {
 			p.AnswerAt = 0
 		}
 		p.Timing = rapid.SampledFrom([]string{"in-write", "in-write", "after-write", "delay"}).Draw(t, "timing")
+		if p.AnswerAt > 0 && rapid.IntRange(0, 3).Draw(t, "burst") == 0 {
+			p.Copies = rapid.IntRange(2, 4).Draw(t, "copies")
+		}
 		c.Plans = append(c.Plans, p)
 		if !c.answered(p) && !p.Failure {
 			break
@@ -383,6 +393,8 @@ func classify(c Case) (bool, []string) {
 			cl = append(cl, "failure-coded-answer")
 		case p.AnswerAt == 0:
 			cl = append(cl, "silent")
+		case p.Copies > 1:
+			cl = append(cl, "answered-in-a-burst")
 		case p.AnswerAt == 1:
 			cl = append(cl, "answered-first:"+p.Timing)
 		default:
@@ -421,6 +433,9 @@ func TestC13Canonical(t *testing.T) {
 				}
 			}
 			if !yield(Case{MaxRetransmits: m, WatchdogMs: 25, RetransmitMs: 30, Plans: []Plan{{AnswerAt: 1, Timing: "in-write"}, {AnswerAt: 0}}}) {
+				return
+			}
+			if !yield(Case{MaxRetransmits: m, WatchdogMs: 25, RetransmitMs: 30, Plans: []Plan{{AnswerAt: m + 1, Timing: "in-write", Copies: m + 2}, {AnswerAt: 0}}}) {
 				return
 			}
 			if !yield(Case{MaxRetransmits: m, WatchdogMs: 25, RetransmitMs: 30, Plans: []Plan{{AnswerAt: m + 1, Timing: "in-write"}, {AnswerAt: 1, Failure: true}}}) {
